@@ -30,6 +30,17 @@ def isFalse(val):
 def isTrue(val):
     return not isFalse(val)
 
+class _Text(str):
+    """Scanned (unescaped) text of StringParser.nextToken().
+
+    Never compares equal to a delimiter token, even if it consists of just a
+    single escaped delimiter character (e.g. ``\\"``).
+    """
+    __slots__ = ()
+    def __eq__(self, other): return self is other
+    def __ne__(self, other): return self is not other
+    __hash__ = str.__hash__
+
 class StringParser:
     """Utility class for complex string parsing/manipulation"""
 
@@ -85,7 +96,7 @@ class StringParser:
             i += 1
         tok.append(self.text[start:i])
         self.index = i
-        return "".join(tok)
+        return _Text("".join(tok))
 
     def getRestOfName(self):
         """Get remainder of bare variable name"""
